@@ -294,6 +294,9 @@ type World struct {
 	frameTriggers []frameTrigger
 	frameCount    int
 
+	ConnMeta map[int]ConnMeta
+	wire     map[int]*wireConn
+
 	SimCfg       *simrt.Config
 	Inconclusive int
 
@@ -302,7 +305,7 @@ type World struct {
 }
 
 func NewWorld(c *Chooser) *World {
-	w := &World{C: c, Plans: map[int]*RPCPlan{}, Desc: map[string]any{}}
+	w := &World{C: c, Plans: map[int]*RPCPlan{}, Desc: map[string]any{}, ConnMeta: map[int]ConnMeta{}}
 	return w
 }
 
